@@ -415,3 +415,114 @@ func VF_C12_types() {
 	vfAssert(rvEq(hExec(m, bs("zrem"), bs("Zk"), bs("mem")), vInt(0)), "zrem-case-sensitive-member")
 	vfAssert(rvEq(hExec(m, bs("zrem"), bs("Zk"), bs("Mem")), vInt(1)), "zrem-case-sensitive")
 }
+
+// ---------------------------------------------------------------------------
+// VF_C12_avl_shapes: every AVL shape with up to maxNodes nodes (built without rotations by inserting in
+// level order), scores symbolic under the shape's in-order constraint, then the removal of any one member:
+// the invariant, the replies and the full read-back must hold. Deletion reaches rebalancing cases that
+// insertion never produces (a child with balance 0 on the heavy side).
+type c12Shape struct{ l, r *c12Shape }
+
+func c12Height(s *c12Shape) int {
+	if s == nil {
+		return 0
+	}
+	a, b := c12Height(s.l), c12Height(s.r)
+	if a > b {
+		return a + 1
+	}
+	return b + 1
+}
+
+func c12Count(s *c12Shape) int {
+	if s == nil {
+		return 0
+	}
+	return 1 + c12Count(s.l) + c12Count(s.r)
+}
+
+// all AVL shapes of exactly height h with at most max nodes
+func c12Gen(h, max int) []*c12Shape {
+	if h == 0 {
+		return []*c12Shape{nil}
+	}
+	if max <= 0 {
+		return nil
+	}
+	var res []*c12Shape
+	for _, hs := range [][2]int{{h - 1, h - 1}, {h - 1, h - 2}, {h - 2, h - 1}} {
+		if hs[0] < 0 || hs[1] < 0 {
+			continue
+		}
+		for _, l := range c12Gen(hs[0], max-1) {
+			nl := c12Count(l)
+			for _, r := range c12Gen(hs[1], max-1-nl) {
+				if 1+nl+c12Count(r) <= max {
+					res = append(res, &c12Shape{l, r})
+				}
+			}
+		}
+	}
+	return res
+}
+
+func c12AVLShapes(minNodes, maxNodes int) {
+	var shapes []*c12Shape
+	for h := 1; h <= 4; h++ {
+		for _, s := range c12Gen(h, maxNodes) {
+			if c12Count(s) >= minNodes {
+				shapes = append(shapes, s)
+			}
+		}
+	}
+	s := shapes[vfChoice("shape", len(shapes))]
+	n := c12Count(s)
+	// in-order rank of every node, then level order
+	rank := map[*c12Shape]int{}
+	var inorder func(x *c12Shape)
+	k := 0
+	inorder = func(x *c12Shape) {
+		if x == nil {
+			return
+		}
+		inorder(x.l)
+		rank[x] = k
+		k++
+		inorder(x.r)
+	}
+	inorder(s)
+	scores := make([]float64, n)
+	for i := range scores {
+		scores[i] = vfFloat64("sc")
+		if i > 0 {
+			vfAssume(scores[i-1] < scores[i])
+		}
+	}
+	m := hNewDb(2)
+	var z zmodel
+	names := []string{"m0", "m1", "m2", "m3", "m4", "m5", "m6", "m7", "m8", "m9"}
+	queue := []*c12Shape{s}
+	for len(queue) > 0 {
+		x := queue[0]
+		queue = queue[1:]
+		j := rank[x]
+		r := hExec(m, bs("zadd"), bs("z"), vfFloatStr(scores[j]), bs(names[j]))
+		vfAssert(rvEq(r, vInt(1)), "avl-shapes-zadd-reply")
+		z = append(z, zmem{names[j], scores[j]})
+		if x.l != nil {
+			queue = append(queue, x.l)
+		}
+		if x.r != nil {
+			queue = append(queue, x.r)
+		}
+	}
+	c12ReadBack(m, z, "avl-shapes-after-inserts")
+	d := vfChoice("del", len(z))
+	r := hExec(m, bs("zrem"), bs("z"), bs(z[d].name))
+	vfAssert(rvEq(r, vInt(1)), "avl-shapes-zrem-reply")
+	z = append(z[:d:d], z[d+1:]...)
+	c12ReadBack(m, z, "avl-shapes-after-delete")
+}
+
+func VF_C12_avl_shapes_quick()    { c12AVLShapes(5, 8) }
+func VF_C12_avl_shapes_thorough() { c12AVLShapes(5, 10) }
